@@ -356,6 +356,63 @@ example : (maxminSolve epsSys 0 5 (fun _ => 0)).map
     (fun st => (st.value 0, st.value 1, load epsSys st.value 0)) = some (1 / 2, 131072, 1) := by
   decide +kernel
 
+/-- c0: SHARED capacity 1, consumers v0 (penalty 2⁻²⁰, bound 1/4) and v1 (penalty 2⁻²⁰, **no bound**: `bound_ = -1`) -/
+def negSys : Sys :=
+  { cnst := fun c => if c = 0 then { bound := 1, fatpipe := false, elems := [(1, 1), (0, 1)] }
+                     else { bound := 0, fatpipe := false, elems := [] },
+    var := fun v => if v = 0 then { penalty := 1/1048576, bound := 1/4, cnsts := [(0, 1)] }
+                    else if v = 1 then { penalty := 1/1048576, bound := -1, cnsts := [(0, 1)] }
+                    else { penalty := 0, bound := -1, cnsts := [] },
+    active := [0], vorder := [1, 0] }
+
+theorem negSys_wf : WF negSys := by
+  constructor
+  · decide
+  · intro c hc; simp [negSys] at hc; subst hc; simp [negSys]
+  · intro c hc e he; simp [negSys] at hc; subst hc; simp [negSys] at he
+    rcases he with rfl | rfl <;> simp [negSys]
+  · intro c hc e he; simp [negSys] at hc; subst hc; simp [negSys] at he; rcases he with rfl | rfl <;> norm_num
+  · intro v e he
+    by_cases h0 : v = 0
+    · subst h0; simp [negSys] at he; subst he; norm_num
+    · by_cases h1 : v = 1
+      · subst h1; simp [negSys] at he; subst he; norm_num
+      · simp [negSys, h0, h1] at he
+  · intro c hc v hp
+    simp [negSys] at hc; subst hc
+    by_cases h0 : v = 0
+    · subst h0; simp [negSys, wOf, sumBy]
+    · by_cases h1 : v = 1
+      · subst h1; simp [negSys, wOf, sumBy]
+      · simp [negSys, h0, h1] at hp
+
+/-
+Full-strength statement — FALSE on the current code for eps > 0:
+  theorem maxmin_var_bounds_eps (S) (hwf : WF S) (eps) (h0 : 0 ≤ eps) (val0 fuel st)
+      (h : maxminSolve S eps fuel val0 = some st) :
+      ∀ c ∈ S.active, ∀ e ∈ (S.cnst c).elems, 0 < e.2 → 0 ≤ st.value e.1
+The test `double_equals(min_bound, var.bound_ * var.sharing_penalty_, precision)` of the `while` loop is also evaluated
+for variables WITHOUT a bound (`bound_ = -1`): when `min_bound + penalty < precision` it holds and the variable gets
+`value_ = bound_ = -1`.  Fix proposed in props/C15/proposed_fix.diff (`var.bound_ > 0 &&`); with it (model:
+`fixLoop`, add `0 < V.bound ∧` to the `dblEq` test) no variable can get a negative rate.
+-/
+
+/-- **counterexample to "every rate is ≥ 0" at the default precision 10⁻⁵** (kernel evaluation; replayed on the real
+library: corpus case `epsN`, finding `maxmin-precision-bound-test-unbounded-variable`): the unbounded variable v1 is
+"fixed at its bound" −1.  In exact arithmetic it gets 3/4. -/
+theorem maxmin_var_bounds_eps_counterexample :
+    ∃ st, maxminSolve negSys (1 / 100000) 4 (fun _ => 0) = some st ∧ st.value 1 = -1 := by
+  have h : (maxminSolve negSys (1 / 100000) 4 (fun _ => 0)).map (fun st => (st.value 0, st.value 1)) = some (1 / 4, -1) := by
+    decide +kernel
+  cases hs : maxminSolve negSys (1 / 100000) 4 (fun _ => 0) with
+  | none => rw [hs] at h; simp at h
+  | some st =>
+    rw [hs] at h; simp at h
+    exact ⟨st, rfl, h.2⟩
+
+example : (maxminSolve negSys 0 4 (fun _ => 0)).map (fun st => (st.value 0, st.value 1)) = some (1 / 4, 3 / 4) := by
+  decide +kernel
+
 /-! ### BMF: the acceptance predicate implies the property (Eigen's fixed point is not modelled) -/
 
 /-- `bmfAccept` (the monitor applied to every BMF answer) is, by definition, capacity/bounds feasibility together with
